@@ -298,6 +298,17 @@ Proof.
   - constructor.
 Qed.
 
+Lemma SInv_openagain cf s : SInv cf s -> SInv cf (fst (do_openagain cf s)).
+Proof.
+  intros I. unfold do_openagain. destruct (closed s) eqn:Ec; [|assumption]. cbn [fst].
+  assert (Q : qreqs (if kafka cf then [] else [QPing]) = []) by (destruct (kafka cf); reflexivity).
+  destruct I. constructor; simp_state; unfold pool_at, keys; cbn [map app p_free p_next length]; try rewrite Q;
+    try assumption; try (intros; discriminate); try (intros; contradiction); try lia.
+  - constructor.
+  - intros _. split; reflexivity.
+  - constructor.
+Qed.
+
 Lemma lookup_snoc_new {A} c (r : A) m : lookup c m = None -> lookup c (m ++ [(c, r)]) = Some r.
 Proof. intros H. rewrite lookup_app, H. cbn. rewrite Z.eqb_refl. reflexivity. Qed.
 
@@ -488,6 +499,7 @@ Proof.
   - apply SInv_ping; assumption.
   - apply SInv_shutdown; assumption.
   - apply SInv_reopen; assumption.
+  - apply SInv_openagain; assumption.
 Qed.
 
 Lemma SInv_exec cf s ls : SInv cf s -> SInv cf (exec cf s ls).
@@ -590,6 +602,21 @@ Proof.
   destruct (i_closed _ _ I Ec) as [Em _].
   assert (E : fst acc = []). { apply empty_list. intros [t c] H. apply (t_out _ _ _ T) in H. rewrite Em in H. destruct H. }
   destruct T. constructor; simp_state; try rewrite E; try rewrite qreqs_nil; try (intros; contradiction); try assumption.
+  constructor.
+Qed.
+
+Lemma TInv_openagain cf s acc wr :
+  SInv cf s -> TInv s acc wr ->
+  TInv (fst (do_openagain cf s)) (track_all acc (snd (do_openagain cf s))) (wr ++ written (snd (do_openagain cf s))).
+Proof.
+  intros I T. unfold do_openagain. destruct (closed s) eqn:Ec; cbn [fst snd]; [|cbn; rewrite app_nil_r; assumption].
+  destruct (i_closed _ _ I Ec) as [Em _].
+  assert (E : fst acc = []). { apply empty_list. intros [t c] H. apply (t_out _ _ _ T) in H. rewrite Em in H. destruct H. }
+  assert (Q : qreqs (if kafka cf then [] else [QPing]) = []) by (destruct (kafka cf); reflexivity).
+  assert (A : track_all acc (if kafka cf then [] else [EEnq KPing 1 0]) = acc) by (destruct (kafka cf); destruct acc; reflexivity).
+  assert (W : written (if kafka cf then [] else [EEnq KPing 1 0]) = []) by (destruct (kafka cf); reflexivity).
+  rewrite A, W, app_nil_r.
+  destruct T. constructor; simp_state; try rewrite E; try rewrite Q; try (intros; contradiction); try assumption.
   constructor.
 Qed.
 
@@ -833,6 +860,7 @@ Proof.
   - cbn. unfold do_reopen. destruct (closed s) eqn:Ec; cbn [fst snd]; apply TInv_nil.
     + pose proof (TInv_reopen cf s acc wr I T) as H. unfold do_reopen in H. rewrite Ec in H. exact H.
     + assumption.
+  - apply TInv_openagain; assumption.
 Qed.
 
 Lemma trace_cons cf s l ls : trace cf s (l :: ls) = snd (step cf s l) ++ trace cf (fst (step cf s l)) ls.
@@ -904,6 +932,7 @@ Proof.
   - unfold do_ping. destruct (_ || _); [intros []|]. intros [E|[]]; subst; exact Logic.I.
   - apply shutdown_frames.
   - unfold do_reopen. destruct (closed s); intros [].
+  - unfold do_openagain. destruct (closed s); [|intros []]. destruct (kafka cf); [intros []|]. intros [E|[]]; subst; exact Logic.I.
 Qed.
 
 Lemma trace_frames cf ls : 1 <= base cf -> forall s e, SInv cf s -> In e (trace cf s ls) -> frame_ok cf e.
@@ -982,6 +1011,7 @@ Proof.
   - exfalso. apply Hn. revert H. unfold do_ping. destruct (_ || _); auto.
   - rewrite shutdown_pool in H. contradiction.
   - exfalso. apply Hn. revert H. unfold do_reopen. destruct (closed s); cbn; tauto.
+  - exfalso. apply Hn. revert H. unfold do_openagain. destruct (closed s); cbn; tauto.
 Qed.
 
 (* ---- when the high-water mark moves ---------------------------------------------------------------- *)
@@ -990,7 +1020,7 @@ Lemma step_next cf s l :
   p_next (pl s') = p_next (pl s) \/
   (p_free (pl s) = [] /\ p_free (pl s') = [] /\ closed s = false /\ closed s' = false /\
    p_next (pl s') = p_next (pl s) + 1 /\ exists c dl pick, l = Req c dl pick) \/
-  (l = Reopen /\ p_next (pl s') = base cf).
+  ((l = Reopen \/ l = OpenAgain) /\ p_next (pl s') = base cf).
 Proof.
   destruct l; cbn [step].
   - unfold do_req. destruct (lookup c (calls s)); [auto|]. destruct (closed s) eqn:Ec; [auto|].
@@ -1011,6 +1041,7 @@ Proof.
   - left. unfold do_ping. destruct (_ || _); reflexivity.
   - left. rewrite shutdown_pool. reflexivity.
   - unfold do_reopen. destruct (closed s); cbn; auto.
+  - unfold do_openagain. destruct (closed s); cbn; auto.
 Qed.
 
 Lemma peak_mono cf ls : forall s p, p <= peak cf s ls p.
